@@ -360,6 +360,11 @@ func histJudge(c *fw.Ctx, h *scen.History, gitBudget *int, fidelity bool, fromEn
 }
 
 func c01Offender(v oracle.Verdict) string {
+	// the entry the model rejects the history for (first in log order); a later
+	// unauthorized entry that merely repairs a revoked one must not relabel it
+	if v.Offender != "" {
+		return v.Offender
+	}
 	kinds := map[string]bool{}
 	for _, e := range v.Entries {
 		if !e.Valid && !e.Skipped && e.HasPolicy {
